@@ -174,7 +174,7 @@ def part_json(ctx, n):
 OUTS = {'d1': [None, 'r.out', 'sub/r.out', 'a.out/a.out', 'noext', '../up.out', 'nodir/x.out', 'ABS:other/abs.out',
                'ABS:other/../d1/back.out', './x.y.z', '.hid', 'sub//dbl.out', 'sub/../a.out/r.out', 'ABS:d1/a.out/a.out'],
         'd1/sub': [None, '../a.out/a.out', 'ABS:other/abs2.out', 'r.out', '../../other/o.out']}
-# quick tier: the first input gets the first 9 shapes of d1 and 3 of d1/sub, every other input 3 random shapes
+# quick tier: the first input gets the first 9 shapes of d1 and 3 of d1/sub, every other input 2 random shapes
 
 
 def cli_case(ctx, idx, text, cwd_rel, out):
@@ -208,7 +208,7 @@ def cli_case(ctx, idx, text, cwd_rel, out):
 def inputs(ctx):
     ex = [(n, t) for n, t in configs.example_texts() if n in ('example1.txt', 'example2.txt', 'example10_HP.txt', 'example1_addons.txt')]
     ex = ex[:ctx.n(2, 4)]
-    syn = [(f'synthetic{i}', runner.params_to_text(configs.synthetic(ctx.rng))) for i in range(ctx.n(2, 20))]
+    syn = [(f'synthetic{i}', runner.params_to_text(configs.synthetic(ctx.rng))) for i in range(ctx.n(2, 12))]
     ok = [(n, t.rstrip('\n') + '\nPrint Output to Console, 0\n') for n, t in ex + syn]
     return ok, list(SPECIAL.items())
 
@@ -223,7 +223,7 @@ def part_cli(ctx):
         code = 0 if ref['ok'] else (2 if ref['error'] == 'SystemExit(None)' else 1)
         outs = [('d1', o) for o in OUTS['d1']] + [('d1/sub', o) for o in OUTS['d1/sub']]
         if ctx.quick:
-            outs = ([('d1', o) for o in OUTS['d1'][:9]] + [('d1/sub', o) for o in OUTS['d1/sub'][:3]]) if k == 0 else rnd.sample(outs, 3)
+            outs = ([('d1', o) for o in OUTS['d1'][:9]] + [('d1/sub', o) for o in OUTS['d1/sub'][:3]]) if k == 0 else rnd.sample(outs, 2)
         for cwd_rel, o in outs:
             plan.append((name, text, code, ref, cwd_rel, o))
     j = len(ok_inputs)
@@ -236,7 +236,7 @@ def part_cli(ctx):
             if got != code:
                 ctx.note(f'special input {name}: direct pipeline outcome {got} ({ref["error"]}), expected {code}')
                 code = got
-        for cwd_rel, o in [('d1', None), ('d1', 'sub/r.out'), ('d1/sub', 'ABS:other/abs.out')][:ctx.n(2, 3)]:
+        for cwd_rel, o in [('d1', 'sub/r.out'), ('d1', None), ('d1/sub', 'ABS:other/abs.out')][:ctx.n(1 if name in ('missing-input-file', 'fails-in-calculate') else 2, 3)]:
             plan.append((name, text, code, ref, cwd_rel, o))
     with ThreadPoolExecutor(max_workers=16) as ex:
         obs = list(ex.map(lambda a: cli_case(ctx, a[0], a[1][1], a[1][4], a[1][5]), enumerate(plan)))
